@@ -14,6 +14,8 @@ mod p08;
 mod p09;
 mod p10;
 mod p14;
+mod p16;
+mod p17;
 mod pipe;
 mod rows;
 mod univ;
@@ -35,6 +37,8 @@ fn modules() -> Vec<Module> {
         ("C09", p09::run_all, p09::checks),
         ("C10", p10::run_all, p10::checks),
         ("C14", p14::run_all, p14::checks),
+        ("C16", p16::run_all, p16::checks),
+        ("C17", p17::run_all, p17::checks),
     ]
 }
 
